@@ -222,6 +222,23 @@ def check_generic(pane, res):
                 core.add_violation(res, {'kind': 'generic_equality', 'a': na, 'b': nb},
                                    f"{na}({va}) == {nb}({vb}) is {got}, expected {want} (equality compares the class ignoring generic parameters)",
                                    {'generic': True, 'a': na, 'b': nb}, 2)
+            # ordering is consistent with equality: where == looks at the fields (same class modulo parameters), so do < <= > >=
+            if not isinstance(got, str):
+                for opname, op, fn in (('<', lambda x, y: x < y, lambda x, y: x < y), ('<=', lambda x, y: x <= y, lambda x, y: x <= y),
+                                       ('>', lambda x, y: x > y, lambda x, y: x > y), ('>=', lambda x, y: x >= y, lambda x, y: x >= y)):
+                    try:
+                        og = op(a, b)
+                    except TypeError:
+                        og = 'TypeError'
+                    except Exception as e:  # noqa
+                        og = type(e).__name__
+                    ow = fn(va, vb) if (same_family or na == nb) else 'TypeError'
+                    res['evals'] += 1
+                    res['transitions'] += 1
+                    if og != ow:
+                        core.add_violation(res, {'kind': 'generic_ordering', 'a': na, 'b': nb, 'op': opname},
+                                           f"{na}({va}) {opname} {nb}({vb}) is {og}, expected {ow} (== between them is {got}: ordering must look at the same classes as equality)",
+                                           {'generic': True, 'a': na, 'b': nb}, 2)
             if same_family and va == vb and got is True:
                 try:
                     if hash(a) != hash(b):
